@@ -79,7 +79,7 @@ class C05(Prop):
         r = env.rng("C05", case["seed"], i)
         log = self.rig.log
         log.clear()
-        zone = env.ZONES[i % len(env.ZONES)]
+        zone = env.ZONES[env.sig("zone", i) % len(env.ZONES)]
         clock.set_zone(zone)     # nothing in a broadcast depends on the host zone: durations are durations
         port = self.ports[i % len(self.ports)]
         sent = []                # (desc, datagram) in send order, exact repeats included
